@@ -65,10 +65,11 @@ class Unit:
                 saved_uf = cfg.uf_ops
                 if 'uf_ops' in fs:     # per-function choice of the arithmetic model (machine floating point when empty)
                     cfg.uf_ops = dict(fs['uf_ops'])
+                cfg.uf_names = fs.get('uf_names'); cfg.uf_int_ops = fs.get('uf_int_ops')     # regex: only operations whose operand text names one of these variables are abstracted
                 try:
                     fl = cxx2c.FnLower(cfg, fi, fs['cname'], self.index).lower()
                 finally:
-                    cfg.uf_ops = saved_uf
+                    cfg.uf_ops = saved_uf; cfg.uf_names = None; cfg.uf_int_ops = None
                 self.lowered[fs['cname']] = fl
                 txt = '\n'.join(fl.body)
                 throws = ('verif_exc = EXC_' in txt) or ('if (verif_exc)' in txt and not fl_catches_all(txt))
@@ -532,7 +533,7 @@ def build_lemma_job(unit, lm):
         rep2.append(c)
     return Job(unit, lm['id'], lm.get('kind', 'lemma'), '\n'.join(parts), lm['entry'], replace=sorted(set(rep2)),
                loops=bool(lm.get('loops')), unwind=lm.get('unwind'), extra_flags=lm.get('cbmc_flags', ()),
-               meta=dict(lemma=lm.get('doc', ''), functions=bodies + rep, bound=lm.get('bound'), mem_kb=lm.get('mem_kb')), timeout=lm.get('timeout'))
+               meta=dict(lemma=lm.get('doc', ''), functions=bodies + rep, bound=lm.get('bound'), mem_kb=lm.get('mem_kb'), bound_loops=lm.get('bound_loops')), timeout=lm.get('timeout'))
 
 # ----------------------------------------------------------------------------
 def classify(job, res, known):
@@ -564,6 +565,8 @@ def classify(job, res, known):
         if 'no body for callee' in p['desc'] or '.no-body.' in p['name'] or 'undefined function should be unreachable' in p['desc']:
             problems.append('%s: lowering/stub gap: %s' % (job.id, p['desc']))
             continue
+        if '.unwind.' in p['name'] and any(p['name'].endswith(x) or (x + ']') in p['name'] or x in p['name'] for x in (job.meta.get('bound_loops') or [])):
+            continue      # a loop the unit bounds on purpose (stated in the bound of the run): executions beyond the bound are cut, the others are decided
         if 'verif_model_bound' in p['desc'] or 'unwinding assertion' in p['desc'] or '.unwind.' in p['name']:
             problems.append('%s: bound of the bounded model too small: [%s] %s' % (job.id, p['name'], p['desc']))
             continue
